@@ -327,12 +327,14 @@ func RuleFF1(c *Ctx) {
 			continue
 		}
 		caller := declObj(cs)
-		if caller == nil || !readsFiles(caller) {
-			continue // the root file comes from the API's caller
+		if caller == nil {
+			continue
 		}
 		fn := c.P.SSAFunc(caller)
 		if fn == nil {
-			sc.Undecided("ssa:"+caller.Name(), c.P.Pos(cs.Call.Pos()), "no SSA form")
+			if readsFiles(caller) {
+				sc.Undecided("ssa:"+caller.Name(), c.P.Pos(cs.Call.Pos()), "no SSA form")
+			}
 			continue
 		}
 		// the SSA call instruction of this site
@@ -345,6 +347,45 @@ func RuleFF1(c *Ctx) {
 					}
 				}
 			}
+		}
+		if !readsFiles(caller) {
+			// the file may be handed in by the one function that read it: judged there
+			par, isParam := arg.(*ssa.Parameter)
+			var up *ssa.Function
+			var upArg ssa.Value
+			ups := 0
+			if isParam {
+				idx := -1
+				for i, p := range fn.Params {
+					if p == par {
+						idx = i
+					}
+				}
+				if node := c.P.CallGraph().Nodes[fn]; node != nil && idx >= 0 {
+					for _, e := range node.In {
+						if e.Site == nil || e.Caller.Func == nil || !c.P.IsRepoFunc(e.Caller.Func) {
+							continue
+						}
+						if args := e.Site.Common().Args; e.Site.Common().StaticCallee() == fn && idx < len(args) {
+							ups++
+							up, upArg = e.Caller.Func, args[idx]
+						}
+					}
+				}
+			}
+			if ups != 1 {
+				continue // the root file comes from the API's caller
+			}
+			reads := false
+			for _, d := range []*ssa.Function{up} {
+				if obj, ok := d.Object().(*types.Func); ok && readsFiles(obj) {
+					reads = true
+				}
+			}
+			if !reads {
+				continue
+			}
+			fn, arg = up, upArg
 		}
 		n++
 		key := c.P.DeclName(cs.Decl)
